@@ -373,6 +373,14 @@ func (dest *Destination) relay() {
 			}
 		case <-dest.shutdown:
 			log.Infof("dest %v shutting down. flushing and closing conn", dest.Key)
+			// a dispatcher that loaded the route's previous config may still be about
+			// to hand us a metric. nobody reads In anymore, so keep draining it:
+			// a removed destination must never block the route and table.
+			// start before flushing: the flush waits for as long as the endpoint doesn't read.
+			go func() {
+				for range dest.In {
+				}
+			}()
 			if conn != nil {
 				conn.Flush()
 				conn.Close()
@@ -380,13 +388,6 @@ func (dest *Destination) relay() {
 			if dest.spool != nil {
 				dest.spool.Close()
 			}
-			// a dispatcher that loaded the route's previous config may still be about
-			// to hand us a metric. nobody reads In anymore, so keep draining it:
-			// a removed destination must never block the route and table.
-			go func() {
-				for range dest.In {
-				}
-			}()
 			return
 		case buf := <-toUnspool:
 			// we know that conn != nil here because toUnspool is set above
